@@ -61,7 +61,7 @@ theorem framing_exclusive {isHead : Bool} {sl : StatusLine} {h0 : HeaderMap} {m 
           intro n hn; omega
         · by_cases hp : rl > 0
           · simp only [hz, hp, if_false, if_true]
-            refine ⟨by simp [hz], by simp, ?_, ?_⟩
+            refine ⟨by simp, by simp, ?_, ?_⟩
             · intro n
               simp only [RespFraming.length.injEq]
               constructor
